@@ -51,6 +51,7 @@ def check(ctx, F):
     if has_history(F):
         check_record(ctx, F)
         check_pin(ctx, F, E)
+        check_pin_coverage(ctx, F)
         check_replay(ctx, F)
 
 
@@ -321,6 +322,32 @@ def check_record(ctx, F):
             ctx.instance("C09.record", site + "/clear", {"function": site, "loc": F.floc(fid)})
             if bad:
                 ctx.violation("C09.record", site + "/clear", "%s (%s)" % (site, F.floc(fid)), bad, {})
+
+
+def check_pin_coverage(ctx, F):
+    """"after a single approved request lastTransitionTo points at it for every state it activated": a state is pinned where the request
+    (with its index) is handed to it - S_::deepRequest* / O_::deepRequest* call pinLastTransition.  A region resolver that picks its sub-state
+    must therefore pass the *request* down into the picked sub-state; resolvers that only poll reports (wideReport*: no request, nothing
+    pinned) leave the sub-states they activate - and everything nested below - without a pin"""
+    for fid, b in F.bodies.items():
+        if not b["inst"] or b.get("cls") != "C_" or not b["name"].startswith("deepRequest") or b["name"] in ("deepRequest", "deepRequestChange"):
+            continue
+        if not any(p.get("n") == "request" for p in b.get("params", [])):
+            continue
+        site = "C_::" + b["name"]
+        down = rep = 0
+        for x in walk(b["body"]):
+            if x.get("k") == "call" and "f" in x and F.fn(x["f"]).get("cls") in ("CS_",):
+                nm = F.fn(x["f"])["name"]
+                if nm.startswith("wideRequest") and any(y.get("k") == "var" and y.get("n") == "request" for a in x.get("a", []) for y in walk(a)):
+                    down += 1
+                elif nm.startswith("wideReport"):
+                    rep += 1
+        ctx.instance("C09.pin", site + "/coverage", {"function": site, "loc": F.floc(fid), "request_handed_down": down, "report_polls": rep})
+        if not down:
+            ctx.violation("C09.pin", site + "/coverage", "%s (%s)" % (site, F.floc(fid)),
+                          "%s picks the sub-state from reports (%d poll(s)) and never hands the request down: the sub-state it activates (and what is "
+                          "nested below it) is not pinned, lastTransitionTo() of a state this request activated is null" % (site, rep), {})
 
 
 def check_pin(ctx, F, E):
